@@ -2,3 +2,51 @@
 import re
 import translate
 from translate import src, array_init, lean_list, strip_c_comments, c_int, TranslateError, HEADER
+
+
+# ------------------------------------------------------------------ single-byte code pages
+BYTE_TABLE_FILES = [("Win1252", "util/XMLWin1252Transcoder.cpp"), ("Ebcdic037", "util/XMLEBCDICTranscoder.cpp"),
+                    ("Ibm1047", "util/XMLIBM1047Transcoder.cpp"), ("Ibm1140", "util/XMLIBM1140Transcoder.cpp")]
+
+def _to_table(text, rel):
+    t = strip_c_comments(text)
+    m = re.search(r"\bgToTable\s*\[\s*\]\s*=\s*\{", t)
+    if not m:
+        raise TranslateError("gToTable not found in " + rel)
+    i = m.end(); depth = 1; j = i
+    while depth and j < len(t):
+        if t[j] == "{": depth += 1
+        elif t[j] == "}": depth -= 1
+        j += 1
+    body = t[i:j-1]
+    recs = re.findall(r"\{\s*([^,{}]+)\s*,\s*([^,{}]+)\s*\}", body)
+    if not recs:
+        raise TranslateError("no records in gToTable of " + rel)
+    leftover = re.sub(r"\{\s*[^,{}]+\s*,\s*[^,{}]+\s*\}", "", body).replace(",", "").strip()
+    if leftover:
+        raise TranslateError("unparsed text in gToTable of %s: %r" % (rel, leftover[:40]))
+    m2 = re.search(r"\bgToTableSz\s*=\s*([^;]+);", t)
+    if not m2:
+        raise TranslateError("gToTableSz not found in " + rel)
+    sz = m2.group(1).strip()
+    declared = len(recs) if "sizeof" in sz else c_int(sz)
+    return [(c_int(a), c_int(b)) for a, b in recs], declared
+
+@translate.register("ByteTables")
+def gen_byte_tables():
+    out = HEADER + "namespace XV.Gen.ByteTables\n\n"
+    out += "structure Table where\n  name : String\n  fromTable : List Nat\n  toTable : List (Nat × Nat)\n  declaredToSize : Nat\n\n"
+    names = []
+    for nm, rel in BYTE_TABLE_FILES:
+        text = src(rel)
+        fr = array_init(text, "gFromTable", rel)
+        if len(fr) != 256:
+            raise TranslateError("%s gFromTable has %d entries" % (rel, len(fr)))
+        to, declared = _to_table(text, rel)
+        out += lean_list("from" + nm, fr)
+        out += "def to%s : List (Nat × Nat) := [\n" % nm
+        out += ",\n".join("  " + ", ".join("(%d, %d)" % p for p in to[k:k+8]) for k in range(0, len(to), 8)) + "]\n"
+        out += "def tbl%s : Table := ⟨\"%s\", from%s, to%s, %d⟩\n\n" % (nm, nm, nm, nm, declared)
+        names.append("tbl" + nm)
+    out += "def all : List Table := [%s]\n\nend XV.Gen.ByteTables\n" % ", ".join(names)
+    return out
